@@ -362,7 +362,7 @@ def run(ctx):
                                   'a data block of its first time step opens as a well-formed one-step file that lacks the remaining tracers' % norm(cmpn)))
         else:
             ctx.ok('R-SCANEXACT', norm(cmpn), wb, 'continuation test')
-    ctx.floor('end-of-file comparisons in the bpch1 header scan', nse, 2)
+    ctx.floor('end-of-file comparisons in the bpch1 header scan', nse, 1)     # the loop condition alone when the walk needs no other test (a repeated block ends it)
     # ---- a partial trailing time block is left out by the floor count; it is not an error of this reader, because any error of bpch1
     # hands the file to bpch2 (the master class catches it), which has no whole-step rule and exposes the incomplete step
     ctx.rule('R-NOHANDOVER', 'bpch1: nothing raises on a partial trailing time block (the floor count leaves it out; an exception would hand the cut file to bpch2)')
